@@ -166,10 +166,11 @@ type Ctx struct {
 	pathVarSet map[int]bool
 	pathUF     []*T
 	varBounds  map[string][2]uint64 // per path: unsigned bounds of variables known from the path condition
+	consts     map[constKey]*T
 }
 
 func NewCtx() *Ctx {
-	c := &Ctx{tab: map[string]*T{}, vars: map[string]*T{}, ufs: map[string]bool{}, pathVarSet: map[int]bool{}, varBounds: map[string][2]uint64{}}
+	c := &Ctx{tab: map[string]*T{}, vars: map[string]*T{}, ufs: map[string]bool{}, pathVarSet: map[int]bool{}, varBounds: map[string][2]uint64{}, consts: map[constKey]*T{}}
 	c.False = c.mk(&T{op: OConst, s: BoolS, c: 0})
 	c.True = c.mk(&T{op: OConst, s: BoolS, c: 1})
 	return c
@@ -233,8 +234,20 @@ func (c *Ctx) Bool(b bool) *T {
 	return c.False
 }
 
+type constKey struct {
+	w int
+	v uint64
+}
+
 func (c *Ctx) Const(w int, v uint64) *T {
-	return c.mk(&T{op: OConst, s: BV(w), c: v & mask(w)})
+	v &= mask(w)
+	k := constKey{w, v}
+	if t, ok := c.consts[k]; ok {
+		return t
+	}
+	t := c.mk(&T{op: OConst, s: BV(w), c: v})
+	c.consts[k] = t
+	return t
 }
 
 func (c *Ctx) ConstS(w int, v int64) *T { return c.Const(w, uint64(v)) }
